@@ -213,3 +213,34 @@ extern "C" void vx_binop()
   }
 #endif
 }
+
+// C12-K3: the text of an operator node is `[(] a1 <space> OP <space> a2 [)]` with OP the operator's own spelling and
+// parentheses exactly when the source had them - so that printing a compiled program and loading it back
+// rebuilds the same node.
+#include <blocc/operator.h>
+struct TextExpr : Expression {
+  const char* txt; Type t;
+  std::string unparse(Context&) const override { return std::string(txt); }
+  const Type& type(Context&) const override { return t; }
+  Value& value(Context&) const override { static Value v; return v; }
+};
+#ifdef VX_OPID
+extern "C" void vx_unparse()
+{
+  static Context& ctx = *new Context(1, 2);
+  static TextExpr a, b; a.txt = "x"; b.txt = "yz";
+  VX_OP* op = new VX_OP(&a, &b);
+  bool enc = in_bool(0);
+  op->enclosed(enc);
+  std::string s = op->unparse(ctx);
+  VX_WITNESS();
+  const char* sp = Operator::OPVALS[VX_OPID];
+  size_t l = std::strlen(sp);
+  verif_assert(l >= 1 && l <= 5, "C12: operator spelling is a short token");
+  std::string e;
+  if (enc) e.push_back('(');
+  e.append("x ").append(sp).append(" yz");
+  if (enc) e.push_back(')');
+  verif_assert(s.size() == e.size() && s.compare(e) == 0, "C12: operator node prints as [(]a OP b[)] with its own spelling, parenthesised iff the source was");
+}
+#endif
